@@ -605,3 +605,164 @@ Proof.
 Qed.
 
 End Entries.
+
+(* ================================================================== consequences *)
+Section Consequences.
+Variable quote : text -> text.
+Variable tbl : table.
+Variable r : registry.
+
+(* C12: no entry of a listing producer is for an object that is not visible *)
+Theorem entries_visible : forall depth ns e, wf r -> table_ok tbl = true ->
+  (root_prod (e_prod e) = true -> roots_guard tbl r) ->
+  In e (site_entries quote tbl r depth ns) -> listing_prod (e_prod e) = true -> visible r (e_obj e) = true.
+Proof.
+  intros depth ns e Hwf Ht Hg Hin Hl. destruct (site_entries_inv quote tbl r depth ns e Hin) as [H _]. auto.
+Qed.
+
+(* C12: every listing entry of a PRIVATE object carries the marker *)
+Theorem private_marked : forall depth ns e, markers_ok tbl = true ->
+  In e (site_entries quote tbl r depth ns) -> marked_prod (e_prod e) = true ->
+  priv_of r (e_obj e) = PRIVATE -> e_private e = true.
+Proof.
+  intros depth ns e Hm Hin Hmk Hp. destruct (site_entries_inv quote tbl r depth ns e Hin) as [_ [_ H]]. auto.
+Qed.
+
+Lemma raw_false : forall p, raw_prod p = false ->
+  N.eqb p P_hierarchy = false /\ N.eqb p P_childlist = false /\ N.eqb p P_alldocs = false /\
+  N.eqb p P_corpus = false /\ N.eqb p P_inventory = false.
+Proof.
+  intros p H. unfold raw_prod in H. cbn [existsb] in H. repeat (apply orb_false_elim in H; destruct H as [? H]). auto.
+Qed.
+
+Lemma link_of_taglink : forall e, raw_prod (e_prod e) = false -> link_of quote tbl r e = taglink quote tbl r (e_obj e) (e_ctx e).
+Proof.
+  intros e H. destruct (raw_false _ H) as [H1 [H2 [H3 [H4 H5]]]]. unfold link_of. now rewrite H1, H2, H3, H4, H5.
+Qed.
+
+Lemma taglink_visible : forall o ctx h, t_taglink_drops_hidden tbl = true -> taglink quote tbl r o ctx = Some h -> visible r o = true.
+Proof.
+  intros o ctx h Hf H. unfold taglink in H. rewrite Hf in H. destruct (visible r o); [reflexivity|discriminate].
+Qed.
+
+(* C12: now that taglink drops the href of a hidden target, no link of the site targets an object that is not visible *)
+Theorem no_link_targets_hidden : forall depth ns e h, wf r -> table_ok tbl = true ->
+  t_taglink_drops_hidden tbl = true ->
+  In e (site_entries quote tbl r depth ns) -> link_of quote tbl r e = Some h -> visible r (e_obj e) = true.
+Proof.
+  intros depth ns e h Hwf Ht Hf Hin Hl.
+  destruct (raw_prod (e_prod e)) eqn:Hraw.
+  - unfold raw_prod in Hraw. cbn [existsb] in Hraw.
+    assert (Hcase : e_prod e = P_hierarchy \/ e_prod e = P_childlist \/ e_prod e = P_alldocs \/ e_prod e = P_corpus \/ e_prod e = P_inventory).
+    { repeat (apply orb_prop in Hraw; destruct Hraw as [Hraw|Hraw]; [apply N.eqb_eq in Hraw; tauto|]). discriminate. }
+    destruct Hcase as [E|[E|[E|[E|E]]]];
+      (apply (entries_visible depth ns e Hwf Ht); [rewrite E; vm_compute; discriminate|exact Hin|rewrite E; reflexivity]).
+  - rewrite (link_of_taglink e Hraw) in Hl. exact (taglink_visible _ _ _ Hf Hl).
+Qed.
+
+Hypothesis quote_no_hash : forall t, ~ In c_hash (quote t).
+
+Lemma own_url_no_hash : forall o, valid r o -> own_page r o = true -> ~ In c_hash (url quote r o).
+Proof. intros o Hv Ho. destruct (own_url quote r o Hv Ho) as [_ E]. rewrite E. now apply page_url_no_hash. Qed.
+
+(* C11 (guarded): when nothing registered is left unreachable (no superseded duplicates, no collision leftovers), every
+   link built by taglink and every url field of all-documents.html / objects.inv leads to a written file and, with a
+   fragment, to an anchor of that file -- resolved against the page the link is rendered on. *)
+Theorem links_live_guarded : forall depth ns e h, wf r -> table_ok tbl = true ->
+  t_taglink_drops_hidden tbl = true -> l_nospace (t_methods tbl) = false -> l_nospace (t_pkg_methods tbl) = false ->
+  all_reachable r ->
+  In e (site_entries quote tbl r depth ns) ->
+  N.eqb (e_prod e) P_hierarchy = false -> N.eqb (e_prod e) P_childlist = false ->
+  link_of quote tbl r e = Some h -> live_at quote tbl r (e_page e) h.
+Proof.
+  intros depth ns e h Hwf Ht Hf Hn1 Hn2 Hall Hin Hh Hc Hl.
+  destruct (table_ok_facts tbl Ht) as [_ [_ [_ [_ [_ [_ [_ [_ [_ [_ [_ [_ [_ [_ [_ [_ [_ [H18 _]]]]]]]]]]]]]]]]]].
+  pose proof (no_link_targets_hidden depth ns e h Hwf Ht Hf Hin Hl) as Hv.
+  pose proof (visible_valid r _ Hv) as Hval.
+  pose proof (url_live quote quote_no_hash tbl r (e_obj e) (e_page e) Hwf H18 Hn1 Hn2 Hv (Hall _ Hval)) as Hlive.
+  destruct (raw_prod (e_prod e)) eqn:Hraw.
+  - (* url fields *)
+    unfold link_of in Hl. rewrite Hh, Hc in Hl.
+    destruct (N.eqb (e_prod e) P_alldocs || N.eqb (e_prod e) P_inventory) eqn:E.
+    + inversion Hl; subst h. exact Hlive.
+    + destruct (N.eqb (e_prod e) P_corpus) eqn:E2; [discriminate|].
+      unfold raw_prod in Hraw. cbn [existsb] in Hraw. apply orb_false_elim in E. destruct E as [E3 E4].
+      rewrite Hh, Hc, E3, E2, E4 in Hraw. discriminate.
+  - rewrite (link_of_taglink e Hraw) in Hl.
+    destruct (taglink_shortening quote quote_no_hash tbl r _ _ _ Hl) as [Hres _].
+    destruct (site_entries_inv quote tbl r depth ns e Hin) as [_ [H2 _]].
+    destruct (H2 Hwf Ht) as [Ec|[Eo|Er]]; [| |congruence].
+    + unfold live_at in *. rewrite <- Ec. rewrite Hres. rewrite Ec. exact Hlive.
+    + (* an own-page target is never shortened *)
+      unfold taglink in Hl. destruct (negb (visible r (e_obj e)) && t_taglink_drops_hidden tbl); [discriminate|].
+      inversion Hl; subst h. unfold shorten.
+      rewrite (no_hash_no_prefix (e_ctx e) _ (own_url_no_hash _ Hval Eo)). rewrite andb_false_r. exact Hlive.
+Qed.
+
+End Consequences.
+
+(* ================================================================== single root *)
+Lemma text_eqb_refl : forall t, text_eqb t t = true.
+Proof. induction t as [|c t IH]; [reflexivity|]. cbn. now rewrite N.eqb_refl. Qed.
+
+(* C11_index_single_root *)
+Theorem index_single_root : forall quote tbl r n o, r_root_names r = [n] -> fullname r o = n -> valid r o -> own_page r o = true ->
+  url quote r o = f_index /\ In (n ++ f_html) (site_files quote tbl r) /\
+  (wf r -> l_visible (t_writer tbl) = true -> In o (r_roots r) -> visible r o = true -> In f_index (site_files quote tbl r)).
+Proof.
+  intros quote tbl r n o Hn Hf Hv Ho. destruct (own_url quote r o Hv Ho) as [_ Eu].
+  assert (E : url quote r o = f_index).
+  { rewrite Eu. unfold page_url, single_root_is. rewrite Hn, Hf. now rewrite text_eqb_refl. }
+  split; [exact E|]. split.
+  - unfold site_files, summary_files. rewrite Hn. apply in_or_app. right. apply in_or_app. right. apply in_or_app. right. now left.
+  - intros Hwf Hw Hr Hvis. rewrite <- E. apply written_file. apply (written_iff tbl r Hwf Hw).
+    repeat split; [exact Ho|exact Hvis|]. exists o. split; [exact Hr|apply desc_refl].
+Qed.
+
+(* ================================================================== quoting *)
+Lemma cquote_safe_id : forall t, forallb quote_safe t = true -> cquote t = t.
+Proof.
+  induction t as [|c t IH]; intros H; [reflexivity|]. cbn [forallb] in H. apply andb_prop in H. destruct H as [Hc Ht].
+  unfold cquote. cbn [flat_map]. rewrite Hc. cbn [app]. f_equal. now apply IH.
+Qed.
+
+Lemma forallb_app_intro : forall {X} (f : X -> bool) a b, forallb f a = true -> forallb f b = true -> forallb f (a ++ b) = true.
+Proof. intros X f a b Ha Hb. rewrite forallb_app. now rewrite Ha, Hb. Qed.
+
+(* the href of a page is the URL encoding of the file name it is written under -- when the name needs no escaping *)
+Theorem href_encodes_file_guarded : forall r o, valid r o -> own_page r o = true ->
+  forallb quote_safe (fullname r o) = true -> cquote (url cquote r o) = url cquote r o.
+Proof.
+  intros r o Hv Ho Hs. destruct (own_url cquote r o Hv Ho) as [_ Eu]. rewrite Eu. unfold page_url.
+  destruct (single_root_is r (fullname r o)); [reflexivity|].
+  rewrite (cquote_safe_id _ Hs). apply cquote_safe_id. apply forallb_app_intro; [exact Hs|reflexivity].
+Qed.
+
+(* ================================================================== a decidable well-formedness check *)
+Lemma parent_of_valid : forall r i p, parent_of r i = Some p -> valid r i.
+Proof. intros r i p H. unfold parent_of in H. destruct (get r i) eqn:E; [exact (get_valid r i _ E)|discriminate]. Qed.
+Lemma contents_of_valid : forall r p c, In c (contents_of r p) -> valid r p.
+Proof. intros r p c H. unfold contents_of in H. destruct (get r p) eqn:E; [exact (get_valid r p _ E)|contradiction]. Qed.
+Lemma module_of_valid : forall r i m, module_of r i = Some m -> valid r i.
+Proof. intros r i m H. unfold module_of in H. destruct (get r i) eqn:E; [exact (get_valid r i _ E)|discriminate]. Qed.
+
+Lemma wf_b_sound : forall r, wf_b r = true -> wf r.
+Proof.
+  intros r H. unfold wf_b in H. cbv zeta in H.
+  apply andb_prop in H. destruct H as [H H4]. apply andb_prop in H. destruct H as [H H3].
+  apply andb_prop in H. destruct H as [H1 H2].
+  rewrite forallb_forall in H1, H2, H3, H4.
+  assert (Hseq : forall i, valid r i -> In i (seq 0 (length (r_objs r)))) by (intros i Hi; apply in_seq; unfold valid in Hi; lia).
+  constructor.
+  - intros i p Hp. specialize (H1 i (Hseq i (parent_of_valid r i p Hp))). rewrite Hp in H1.
+    apply andb_prop in H1. destruct H1 as [Hlt _]. now apply Nat.ltb_lt in Hlt.
+  - intros p c Hc. specialize (H2 p (Hseq p (contents_of_valid r p c Hc))). rewrite forallb_forall in H2.
+    specialize (H2 c Hc). apply andb_prop in H2. destruct H2 as [Hlt Hq]. apply Nat.ltb_lt in Hlt.
+    split; [exact Hlt|]. destruct (parent_of r c) as [q|]; [|discriminate]. apply Nat.eqb_eq in Hq. now subst q.
+  - intros o Ho. specialize (H3 o Ho). apply andb_prop in H3. destruct H3 as [H3 Hown].
+    apply andb_prop in H3. destruct H3 as [Hlt Hp]. apply Nat.ltb_lt in Hlt.
+    repeat split; [exact Hlt| |exact Hown]. destruct (parent_of r o); [discriminate|reflexivity].
+  - intros c p Hp. specialize (H1 c (Hseq c (parent_of_valid r c p Hp))). rewrite Hp in H1.
+    apply andb_prop in H1. tauto.
+  - intros c m Hm. specialize (H4 c (Hseq c (module_of_valid r c m Hm))). now rewrite Hm in H4.
+Qed.
